@@ -193,14 +193,20 @@ func init() { vRegister("ZZ_C18_History", ZZ_C18_History) }
 // the bound: the sampling period is 80+ events) and never exceed 15, regardless of what was recorded for the other key
 // and of which key was looked at last.
 func ZZ_C18_History() {
-	vHashMode(1)
+	if vParam("symhash") == 1 {
+		vHashMode(1)
+	}
 	s := newSketch[uint64]()
 	capNow := uint64(8)
 	s.ensureCapacity(capNow)
 	keys := []uint64{11, 22}
 	var cnt [2]uint64
 	steps := vParam("steps")
-	sc := ""
+	probeAll := vChoice("probe", 2) == 1 // estimates are read after every step, or only at the end of the history
+	sc := []string{"probe=end;", "probe=every_step;"}[vChoice("probe_name", 1)]
+	if probeAll {
+		sc = "probe=every_step;"
+	}
 	for i := 0; i < steps; i++ {
 		op := vChoice("op", 3)
 		switch op {
@@ -217,9 +223,11 @@ func ZZ_C18_History() {
 			cnt = [2]uint64{}
 		}
 		vAssert(s.size < s.sampleSize, "c18h.no_aging_step_within_the_bound")
-		// look at the keys in both orders (the order is a choice): the estimate must not depend on who was asked last
-		first := vChoice("first", 2)
-		for _, q := range []int{first, 1 - first} {
+		if !probeAll && i != steps-1 {
+			continue
+		}
+		// look at the keys in both orders: the estimate must not depend on who was asked last
+		for _, q := range []int{0, 1, 0} {
 			f := s.frequency(keys[q])
 			want := cnt[q]
 			if want > 15 {
